@@ -416,6 +416,76 @@ fn transfer(c: &XCase, rep: &mut Report, dir: &std::path::Path) {
     }
 }
 
+// ---- the sender hangs up right behind its last message --------------------------------------------
+//
+// One direction only: a zlink connection sends its messages and is dropped at once (a client that says what it
+// has to say and leaves); the zlink connection at the other end starts late, or is parked in a receive when the
+// last messages and the hang-up arrive together. Everything that was sent is still owed to it, then end-of-stream.
+
+async fn hangup<S: Socket>(kind: Kind, a: Connection<S>, b: Connection<S>, sizes: Vec<usize>, receiver_delay_ms: u64) -> Result<u64, (String, String)> {
+    let (_ar, mut aw) = a.split();
+    let (mut br, _bw) = b.split();
+    let sender = async {
+        let r = send_all(kind, &mut aw, 0, &sizes, 0).await;
+        drop(aw);
+        drop(_ar);
+        r
+    };
+    let receiver = async {
+        if receiver_delay_ms > 0 {
+            sleep(kind, Duration::from_millis(receiver_delay_ms)).await;
+        }
+        let n = recv_all(kind, &mut br, 0, &sizes, 0).await?;
+        match with_deadline(kind, Duration::from_secs(20), br.receive_call::<Msg<'_>>()).await {
+            Some(Err(zlink_core::Error::UnexpectedEof)) | Some(Err(zlink_core::Error::Io(_))) => Ok(n),
+            Some(other) => Err(("C19/no-end-of-stream-after-peer-closed".to_string(), format!("{other:?}"))),
+            None => Err(("inconclusive".to_string(), "end-of-stream not observed within 20 s".to_string())),
+        }
+    };
+    let (s, r) = futures_util::join!(sender, receiver);
+    s.map_err(|e| ("C19/send-failed".to_string(), e))?;
+    r
+}
+
+fn hangup_case(kind: Kind, seed: u64, rep: &mut Report) {
+    let mut rng = Rng::derive(seed, 1924);
+    let n = rng.range(1, 12);
+    // mostly small totals (everything fits into the socket: the sender is gone before the receiver looks)
+    let max = if rng.chance(1, 4) { 300_000 } else { 8_000 };
+    let sz = sizes(&mut rng, n, max);
+    let delay = *rng.pick(&[0u64, 0, 2, 10]);
+    let desc = format!("sender-hangs-up {} seed={} msgs={} max={} receiver_delay={}ms", kind.name(), seed, n, max, delay);
+    let replay = json!({"monitor": "c19", "case": desc});
+    let res: Result<u64, (String, String)> = run_on(kind, async {
+        let inc = |e: std::io::Error| ("inconclusive".to_string(), e.to_string());
+        let (sa, sb) = std::os::unix::net::UnixStream::pair().map_err(inc)?;
+        sa.set_nonblocking(true).map_err(inc)?;
+        sb.set_nonblocking(true).map_err(inc)?;
+        match kind {
+            Kind::Smol => {
+                let a = Connection::new(zlink_smol::unix::Stream::from(smol::Async::new(sa).map_err(inc)?));
+                let b = Connection::new(zlink_smol::unix::Stream::from(smol::Async::new(sb).map_err(inc)?));
+                with_deadline(kind, Duration::from_secs(120), hangup(kind, a, b, sz.clone(), delay)).await.unwrap_or(Err(("inconclusive".into(), "not finished within 120 s".into())))
+            }
+            _ => {
+                let a = Connection::new(zlink_tokio::unix::Stream::from(tokio::net::UnixStream::from_std(sa).map_err(inc)?));
+                let b = Connection::new(zlink_tokio::unix::Stream::from(tokio::net::UnixStream::from_std(sb).map_err(inc)?));
+                with_deadline(kind, Duration::from_secs(120), hangup(kind, a, b, sz.clone(), delay)).await.unwrap_or(Err(("inconclusive".into(), "not finished within 120 s".into())))
+            }
+        }
+    });
+    rep.eval(vnet::fnv(desc.as_bytes()));
+    rep.count("sender_hangs_up_cases");
+    match res {
+        Ok(n) => {
+            rep.add("messages_received_after_the_sender_hung_up", n);
+            rep.evaluations += n;
+        }
+        Err((sig, d)) if sig == "inconclusive" => rep.inconclusive.push(format!("{d}; {desc}")),
+        Err((sig, d)) => rep.violation(&sig, format!("{d}; {desc}"), replay),
+    }
+}
+
 // ---- abandoned sends ---------------------------------------------------------------------------
 
 struct CancelOut {
@@ -1013,6 +1083,17 @@ pub fn run(cfg: &Cfg) -> Report {
         for k in 0..n {
             let idx = k * cfg.shards as u64 + cfg.shard as u64;
             abandoned_receive_case("C19", kinds[(idx % 3) as usize], cfg.seed.wrapping_mul(15_485_863).wrapping_add(idx), &mut rep);
+        }
+    }
+    // (2d) the sender hangs up right behind its last message
+    if only.is_none() || only == Some("hangup") {
+        let n = cfg.n(if heavy { 24 } else { 960 }, if heavy { 96 } else { 19_200 });
+        for k in 0..n {
+            let idx = k * cfg.shards as u64 + cfg.shard as u64;
+            hangup_case(kinds[(idx % 3) as usize], cfg.seed.wrapping_mul(49_979_687).wrapping_add(idx), &mut rep);
+            if rep.enough() {
+                break;
+            }
         }
     }
     // (3) ids
